@@ -84,6 +84,19 @@ def fbits(x):
     return struct.pack(">d", x).hex()
 
 
+def dec(v):
+    """decimal digits of an int of any size (str() refuses more than 4300 digits); the harness' own conversion"""
+    if abs(v) < 10 ** 4000:
+        return str(v)
+    sign = "-" if v < 0 else ""
+    v = abs(v)
+    parts = []
+    while v:
+        v, r = divmod(v, 10 ** 3000)
+        parts.append(r)
+    return sign + str(parts[-1]) + "".join("%03000d" % q for q in reversed(parts[:-1]))
+
+
 def fp(v):
     """Bit- and type-exact, JSON-able fingerprint of a constant (code objects recursively)."""
     t = type(v)
@@ -94,7 +107,7 @@ def fp(v):
     if t is bool:
         return ["b", int(v)]
     if t is int:
-        return ["i", str(v)]
+        return ["i", hex(v)]          # not str(): integers above the int/str digit limit (4300) occur
     if t is float:
         return ["f", fbits(v)]
     if t is complex:
